@@ -546,7 +546,8 @@ pub fn run(ctx: Ctx) -> i32 {
             .map(|(i, m1)| {
                 let s1 = step(&ctx, &env, &st, &alt_inits[*i], &Ev::Build(m1));
                 let mut n = 1;
-                for e in events(&s1, true).into_iter().filter(|e| !matches!(e, Ev::Build(_))) {
+                // (with the edits that land in the same tick as the generated file: equal modification times)
+                for e in events(&s1, false).into_iter().filter(|e| !matches!(e, Ev::Build(_))) {
                     let s2 = step(&ctx, &env, &st, &s1, &e);
                     // the second build in the same mode (the mixed modes are covered from the
                     // default initial state)
